@@ -10,7 +10,9 @@ input, and it dips towards zero as the input approaches the region even while th
 How it works (all inside a forked child, so the process that judges never runs instrumented code):
   * the a5 package is re-imported through an import hook that rewrites every single-operator numeric comparison
     `a OP b` (OP in <, <=, >, >=) into `__vcmp__(site, a, b, op)`, which evaluates the comparison unchanged and records
-    a - b for the first few executions of the site and the execution with the smallest |a - b|;
+    a - b for the first few executions of the site and the execution with the smallest |a - b|; every division `a / b`
+    records its divisor b and every math.sqrt / log / acos / asin call the distance of its argument from the edge of the
+    domain, which are branch distances of the same kind (poles of rational forms, vanishing norms, clamped arguments);
   * a driver (projection round trip, or lonlat_to_cell + ring + centre at resolution 2) is evaluated at 9 points of a
     Hypothesis-drawn great-circle arc; for every recorded channel
       - a sign change between neighbouring samples is bisected (a threshold crossing),
@@ -42,11 +44,37 @@ class _Rewriter(ast.NodeTransformer):
         self.generic_visit(node)
         if len(node.ops) != 1 or type(node.ops[0]) not in OPS:
             return node
-        self.sites.append(f"{self.rel}:{node.lineno}:{node.col_offset}")
+        self.sites.append(f"{self.rel}:{node.lineno}:{node.col_offset}:cmp")
         call = ast.Call(func=ast.Name(id="__vcmp__", ctx=ast.Load()),
                         args=[ast.Constant(len(self.sites) - 1), node.left, node.comparators[0], ast.Constant(OPS[type(node.ops[0])])],
                         keywords=[])
         return ast.copy_location(call, node)
+
+
+    def visit_BinOp(self, node):
+        # a / b: the divisor's distance from zero is a branch distance too (poles of rational forms, vanishing norms)
+        self.generic_visit(node)
+        if not isinstance(node.op, ast.Div):
+            return node
+        self.sites.append(f"{self.rel}:{node.lineno}:{node.col_offset}:div")
+        call = ast.Call(func=ast.Name(id="__vdiv__", ctx=ast.Load()),
+                        args=[ast.Constant(len(self.sites) - 1), node.left, node.right], keywords=[])
+        return ast.copy_location(call, node)
+
+    def visit_Call(self, node):
+        # math.sqrt / acos / asin / log of one argument: distance of the argument from the edge of the domain
+        self.generic_visit(node)
+        f = node.func
+        if (isinstance(f, ast.Attribute) and isinstance(f.value, ast.Name) and f.value.id == "math" and f.attr in _EDGE
+                and len(node.args) == 1 and not node.keywords and not isinstance(node.args[0], ast.Starred)):
+            self.sites.append(f"{self.rel}:{node.lineno}:{node.col_offset}:{f.attr}")
+            call = ast.Call(func=ast.Name(id="__vfun__", ctx=ast.Load()),
+                            args=[ast.Constant(len(self.sites) - 1), ast.Constant(_EDGE[f.attr]), f, node.args[0]], keywords=[])
+            return ast.copy_location(call, node)
+        return node
+
+
+_EDGE = {"sqrt": 0, "log": 0, "acos": 1, "asin": 1}
 
 
 class _Recorder:
@@ -81,6 +109,36 @@ class _Recorder:
                         self.rec[(site, -1)] = d
         return r
 
+    def _note(self, site, d):
+        if d == d and d not in (math.inf, -math.inf):
+            k = self.cnt.get(site, 0)
+            self.cnt[site] = k + 1
+            if k < MAX_EXEC:
+                self.rec[(site, k)] = d
+            m = self.rec.get((site, -1))
+            if m is None or abs(d) < abs(m):
+                self.rec[(site, -1)] = d
+
+    def div(self, site, a, b):
+        if self.on:
+            tb = type(b)
+            if tb is float or tb is int:
+                try:
+                    self._note(site, float(b))
+                except OverflowError:
+                    pass
+        return a / b
+
+    def fun(self, site, kind, f, x):
+        if self.on:
+            tx = type(x)
+            if tx is float or tx is int:
+                try:
+                    self._note(site, float(x) if kind == 0 else 1.0 - abs(float(x)))
+                except OverflowError:
+                    pass
+        return f(x)
+
     def run(self, fn):
         self.rec = {}
         self.cnt = {}
@@ -104,6 +162,8 @@ def _instrument():
     sites = []
     recorder = _Recorder()
     builtins.__vcmp__ = recorder
+    builtins.__vdiv__ = recorder.div
+    builtins.__vfun__ = recorder.fun
 
     class Loader(mach.SourceFileLoader):
         def get_code(self, fullname):
